@@ -18,27 +18,21 @@ Notation good := (good F HK CS).
 Notation trace := (trace (A := A)).
 Ltac nonconv := let x := fresh "x" in let X := fresh "X" in intros x X; discriminate X.
 
-(* constraints: only returns through the stop test or the hook are covered; the point
-   returned at the iteration cap was never submitted (Refuted.adam_cap_constraints_refuted) *)
-Definition ad_point_accepted (tr : trace) (o : outcome (A := A)) : Prop :=
-  match o with
-  | Converged x | HookStop x => accepted (ad_cons P) tr x
-  | _ => True
-  end.
-
+(* At HEAD (fix f6a3a16) x1 is always the last evaluated and accepted point, so the
+   constraints statement is the full one: stop test, hook stop AND iteration cap. *)
 Definition ad_post (n0 : nat) (i : Z) (o : outcome (A := A)) (tr : trace) : Prop :=
-  good tr /\ (forall x, o = Converged x -> stop_ok NM (ad_eps P) tr x) /\ ad_point_accepted tr o /\
+  good tr /\ (forall x, o = Converged x -> stop_ok NM (ad_eps P) tr x) /\ point_accepted (ad_cons P) tr o /\
   (n_evals tr <= n0 + Z.to_nat (ad_maxit P - i))%nat.
 
-Lemma ad_loop_ok fuel : forall i x m v b1t b2t tr, good tr ->
-  ad_post (n_evals tr) i (fst (ad_loop NM F HK CS P fuel i x x m v b1t b2t tr))
-                         (snd (ad_loop NM F HK CS P fuel i x x m v b1t b2t tr)).
+Lemma ad_loop_ok fuel : forall i x1 x m v b1t b2t tr, good tr -> accepted (ad_cons P) tr x1 ->
+  ad_post (n_evals tr) i (fst (ad_loop NM F HK CS P fuel i x1 x m v b1t b2t tr))
+                         (snd (ad_loop NM F HK CS P fuel i x1 x m v b1t b2t tr)).
 Proof.
   unfold ad_post.
-  induction fuel as [|f IH]; intros i x m v b1t b2t tr G; simpl.
+  induction fuel as [|f IH]; intros i x1 x m v b1t b2t tr G Hacc1; simpl.
   { ssplit; [exact G | nonconv | exact I | lia]. }
   destruct (i <? ad_maxit P) eqn:Hi; simpl.
-  2:{ ssplit; [exact G | nonconv | exact I | lia]. }
+  2:{ ssplit; [exact G | nonconv | exact Hacc1 | lia]. }
   apply Z.ltb_lt in Hi.
   assert (Hz : Z.to_nat (ad_maxit P - i) = S (Z.to_nat (ad_maxit P - (i + 1)))) by lia.
   remember (F (length tr) (QGrad x)) as a eqn:Ha.
@@ -77,7 +71,8 @@ Proof.
     intros x' X. inversion X; subst x'. exists a. ssplit; auto.
     eapply ext_in; [exact E3|]. eapply ext_in; [exact E2 | left; reflexivity]. }
   destruct (ad_upd NM P x m v (a_g a) b1t b2t) as [[[x2' m'] v']|]; simpl.
-  - specialize (IH (i + 1) x2' m' v' (mul NM b1t (ad_beta1 P)) (mul NM b2t (ad_beta2 P)) tr3 G3).
+  - assert (Hacc3 : accepted (ad_cons P) tr3 x) by (eapply accepted_ext; eauto).
+    specialize (IH (i + 1) x x2' m' v' (mul NM b1t (ad_beta1 P)) (mul NM b2t (ad_beta2 P)) tr3 G3 Hacc3).
     destruct IH as (G4 & S4 & A4 & N4). ssplit; [exact G4 | exact S4 | exact A4 | lia].
   - ssplit; [exact G3 | nonconv | exact I | lia].
 Qed.
@@ -92,11 +87,13 @@ Proof.
   { subst tr0. destruct (ad_cons P); [|apply good_nil]. subst ok.
     apply (good_cons F HK CS [] x0). apply good_nil. }
   assert (N0 : n_evals tr0 = 0%nat) by (subst tr0; destruct (ad_cons P); reflexivity).
-  clear Htr0.
+  assert (Hacc : ok = true -> accepted (ad_cons P) tr0 x0).
+  { unfold accepted. intros -> Hc. subst tr0. rewrite Hc. left; reflexivity. }
+  clear Htr0 Hok.
   destruct ok; cbn [negb fst snd].
   2:{ unfold ad_post; ssplit; [exact G0 | nonconv | exact I | lia]. }
-  pose proof (ad_loop_ok fuel 0 x0 (repeat (zero NM) (length x0)) (repeat (zero NM) (length x0))
-                (ad_beta1 P) (ad_beta2 P) tr0 G0) as L.
+  pose proof (ad_loop_ok fuel 0 x0 x0 (repeat (zero NM) (length x0)) (repeat (zero NM) (length x0))
+                (ad_beta1 P) (ad_beta2 P) tr0 G0 (Hacc eq_refl)) as L.
   rewrite N0 in L. exact L.
 Qed.
 
